@@ -252,8 +252,8 @@ theorem Sim.reads (c : Cfg) {s g} (h : Sim s g) : ReadsAgree c s g := by
     simp only [bne_self_eq_false, Bool.false_eq_true, if_false]
     rw [mergeEProps_eq_epropRuns]; exact hG.eprops r nm a b k hr ha2 hb2
   · intro x hx
-    unfold Engine.lookupInternal IdMap.lookup Graph.extLookup
-    rw [hL.e2i, lookup_swap]
+    unfold Engine.lookupInternal Graph.extLookup
+    rw [hL.e2i x, lookup_swap]
     congr 1
     apply find_congr'
     intro p hp
